@@ -177,3 +177,45 @@ Definition ign_case_ok (c : ign_case) : bool :=
   && bools_eq (line_verdicts (ic_src c) (ic_coms c)) (ic_line_verdicts c)
   && Bool.eqb (skip_search (ic_src c)) (ic_skip c)
   && forallb (fun p => Bool.eqb (has_ignore (ic_src c) (ic_coms c) (fst p)) (snd p)) (ic_ranges c).
+
+(* ---- round 5: nodes.  The direct-editing back end (processing.remove_nodes, processing.alter_code) and the
+   rules' own guards ask   has_ignore_comment(source, get_charnos(node, source))   about a NODE of the syntax
+   tree.  A node occupies whole physical lines: from the line of its first decorator (core.get_charnos starts
+   the range at that decorator's "@"; for a node without decorators: node.lineno) to node.end_lineno.  The
+   recogniser works on character ranges; what a caller means is "one of the node's lines protects". *)
+
+(* the numbered line table: (0-based physical line number, (character range, text)) *)
+Definition numbered (src : text) : list (nat * (range * text)) :=
+  let tbl := line_ranges 0 (split_lines src) in combine (seq 0 (length tbl)) tbl.
+
+(* the line protects: its text matches the regex and the tokenizer confirms a comment on it *)
+Definition protects (coms : option (list nat)) (e : nat * (range * text)) : bool :=
+  ignore_line (snd (snd e)) && comment_ok coms (fst e).
+
+(* the line-number reading: one of the physical lines first..last (0-based, inclusive) protects *)
+Definition node_lines_ignore (src : text) (coms : option (list nat)) (first last : nat) : bool :=
+  existsb (fun e => Nat.leb first (fst e) && Nat.leb (fst e) last && protects coms e) (numbered src).
+
+(* the non-empty range r starts inside physical line [first] and ends inside (or at the end of) line [last] *)
+Definition spans (src : text) (r : range) (first last : nat) : bool :=
+  (fst r <? snd r)%Z
+  && existsb (fun e => Nat.eqb (fst e) first
+                       && (fst (fst (snd e)) <=? fst r)%Z && (fst r <? snd (fst (snd e)))%Z) (numbered src)
+  && existsb (fun e => Nat.eqb (fst e) last
+                       && (fst (fst (snd e)) <? snd r)%Z && (snd r <=? snd (fst (snd e)))%Z) (numbered src).
+
+(* (source, tokenizer verdict, the range a real caller handed to has_ignore_comment for a node,
+    the node's first physical line (first decorator, else lineno) and last physical line (end_lineno), both
+    0-based and computed by the harness from CPython's ast, the verdict of the real has_ignore_comment) *)
+Record node_case := mkNode {
+  nc_src : text;
+  nc_coms : option (list nat);
+  nc_range : range;
+  nc_first : nat;
+  nc_last : nat;
+  nc_verdict : bool
+}.
+Definition node_case_ok (c : node_case) : bool :=
+  spans (nc_src c) (nc_range c) (nc_first c) (nc_last c)
+  && Bool.eqb (has_ignore (nc_src c) (nc_coms c) (nc_range c)) (nc_verdict c)
+  && Bool.eqb (node_lines_ignore (nc_src c) (nc_coms c) (nc_first c) (nc_last c)) (nc_verdict c).
